@@ -76,6 +76,12 @@ func VfC05Read() {
 		seq := uint32(o.Nonce[4])<<24 | uint32(o.Nonce[5])<<16 | uint32(o.Nonce[6])<<8 | uint32(o.Nonce[7])
 		vf.Assert(state.VfSeqAccepts(win0, seq, false), "delivered-frame-the-replay-window-rejects")
 		vf.Reach("delivered")
+		// relaying: whatever its size, the frame as received has the room the next link needs
+		conn2 := &vfConn{}
+		link2, _ := vfLinkFor(conn2, true)
+		link2.peering = link.peering
+		vf.Assert(link2.writeFrame(f) == nil && len(conn2.written) == 1, "received-frame-cannot-be-written-to-the-next-link")
+		vf.Assert(len(conn2.written[0]) == dataLen, "relayed-link-frame-length")
 	} else {
 		vf.Assert(f == nil, "frame-with-error")
 		if len(vf.Opens) == 1 && !vf.Opens[0].OK {
@@ -132,6 +138,10 @@ func VfC05Write() {
 	err = link.writeFrame(f)
 	if err != nil {
 		vf.Assert(len(conn.written) == 0, "write-despite-error")
+		// a frame that has the head and tail room the link needs (as every frame of this router's
+		// own builder has) and fits the 16-bit length prefix is never refused - whatever its size
+		// relative to the pooled buffer tiers: a refused frame is a frame silently lost
+		vf.Assert(!(off >= FrameOffset && ovh >= FrameOverhead && n+FrameOffset+FrameOverhead <= 0xFFFF), "frame-with-link-margins-refused")
 		vf.Reach("refused")
 		return
 	}
